@@ -389,12 +389,11 @@ def step(ctx, st, op, H):
                 rec.save(path)
             size = len(dry.read_bytes(path))
             fault["at"] = min(max(0, int(fault["frac"] * size)), size - 1)
-            fault["path"] = path
-            st.fs.arm(fault)
+            live = st.fs.arm(fault)          # applies to whatever file the save opens (also a temporary name)
             st.fault_kind = fault["kind"]
             try:
                 rec.save(path)
-                ctx.check(fault["kind"] == "short_write", "write_fault_swallowed",
+                ctx.check(fault["kind"] == "short_write" or not live.get("fired"), "write_fault_swallowed",
                           f"{fault['kind']} during save but the call returned normally", key={"kind": fault["kind"]})
                 st.saved[path] = view
             except SimCrash:
@@ -434,9 +433,16 @@ def step(ctx, st, op, H):
                     ctx.probe("read_failed")
                 finally:
                     st.fs.disarm()
-            got = H.SeismicRecording3C.load(path)
-            v = st.saved[path]
             key = {"op": "load"}
+            try:
+                got = H.SeismicRecording3C.load(path)
+            except Exception as ex:                          # noqa
+                ctx.check(False, "load_raised_after_completed_save",
+                          f"loading a file written by a save that completed normally raised {type(ex).__name__}: {ex}", key=key)
+                got = None
+            if got is None:
+                return
+            v = st.saved[path]
             for comp in ("ns", "ew", "vt"):
                 ctx.check(bits_equal(getattr(got, comp).amplitude, v[comp]), "roundtrip_samples_differ",
                           lambda: f"{comp} samples differ after save/load "
